@@ -21,7 +21,7 @@ TIERS = {"quick": {"ASSGN2": (7, 24, 40, 40), "XMLISH": (6, 22, 30, 20), "NUM": 
          "thorough": {"ASSGN2": (7, 30, 150, 250), "XMLISH": (7, 30, 100, 120), "NUM": (6, 16, 80, 60), "NULLABLE": (8, 20, 60, 40),
                       "CSVISH": (7, 22, 80, 40)}}
 PID = "C07"
-ESC_STRINGS = ['"', "\\", "a\"b", "\n", "\t", "a\\nb", "{", "}", "[", "]", "ä", "<x>", " ", "'", "\\\"", "x y"]
+ESC_STRINGS = ['"', "\\", "a\"b", "\n", "\t", "a\\nb", "{", "}", "[", "]", "ä", "<x>", " ", "'", "\\\"", "x y", "\U0001F600", "a\U0001F600b", "\uffff", "\u20ac"]
 
 
 def operator_sources(name, g, rnd, scale):
